@@ -8,8 +8,8 @@ impl<T, M> Iterator for Wrapped<T, M> { type Item = T; fn next(&mut self) -> Opt
 fn main() {
     let col: Vec<String> = vec![String::from("a"), String::from("b"), String::from("c")];
     let it = col.con_iter();
-    let mut b = it.buffered_iter(2);
-    let r = it.next();
     let c = it.next_chunk(2);
-    if let Some(x) = c { let _n = x.values.count(); }
+    let r = it.next();
+    let s = it.into_seq_iter(); drop(s);
+    if let Some(x) = r { let _y = x.clone(); }
 }
